@@ -480,6 +480,10 @@ class Interp:
             if len(a) != len(b):
                 return smt.FALSE
             return smt.And(*[self.eq(x, y) for x, y in zip(a, b)])
+        if isinstance(a, SRef) and isinstance(b, SRef) and a.cls == b.cls and \
+                self.env.classes[a.cls].get('eq_key'):
+            ek = self.env.classes[a.cls]['eq_key']
+            return self.eq(self.get_attr(a, ek), self.get_attr(b, ek))
         if isinstance(a, SV) or isinstance(b, SV):
             if isinstance(a, Obj) or isinstance(b, Obj):
                 raise Unsupported('== between object and symbolic value')
